@@ -529,6 +529,32 @@ def make_async_handler(rec, hdef, bus):
     return h
 
 
+def _as_member(fn, hid, form, is_sync):
+    """the same puppet registered as a bound method, a classmethod or a staticmethod of a throw-away class (the forms bus.on() accepts)"""
+    if is_sync:
+        def m(self_or_cls, event):
+            return fn(event)
+
+        def st(event):
+            return fn(event)
+    else:
+        async def m(self_or_cls, event):
+            return await fn(event)
+
+        async def st(event):
+            return await fn(event)
+    m.__name__ = m.__qualname__ = hid
+    st.__name__ = st.__qualname__ = hid
+    if form == 'method':
+        cls = type('Puppet_' + hid, (), {hid: m})
+        return getattr(cls(), hid)
+    if form == 'classmethod':
+        cls = type('Puppet_' + hid, (), {hid: classmethod(m)})
+        return getattr(cls, hid)
+    cls = type('Puppet_' + hid, (), {hid: staticmethod(st)})
+    return getattr(cls, hid)
+
+
 # ---------------------------------------------------------------------------------------------
 # drivers
 # ---------------------------------------------------------------------------------------------
@@ -775,6 +801,8 @@ async def _main(rec, scn, probes):
             fn = make_sync_handler(rec, hd, b)
         else:
             fn = make_async_handler(rec, hd, b)
+        if kind != 'fwd' and hd.get('form', 'func') != 'func':
+            fn = _as_member(fn, hd['id'], hd['form'], kind == 'sync')
         rec.keep.append(fn)
         rec.handler_label[(id(b), id(fn))] = hd['id']
         if kind == 'fwd':
